@@ -2001,9 +2001,11 @@ class XNor(Any):
     """
 
     def __init__(self, *propositions, variable: typing.Union[puan.variable, str] = None):
+        # kept for to_json: the negated halves below do not hold the propositions as they were given
+        self.xnor_propositions = list(map(lambda x: puan.variable(x) if type(x) == str else x, propositions))
         super().__init__(
-            AtLeast(value=1, propositions=propositions).negate(), 
-            AtMost(value=1, propositions=propositions).negate(), 
+            AtLeast(value=1, propositions=self.xnor_propositions).negate(), 
+            AtMost(value=1, propositions=self.xnor_propositions).negate(), 
             variable=variable,
         )
 
@@ -2059,9 +2061,9 @@ class XNor(Any):
             'propositions': list(
                 map(
                     maz.compose(operator.methodcaller("to_json")),
-                    self.propositions[0].negate().propositions
+                    self.xnor_propositions
                 )
-            ) if len(self.propositions) > 0 else [],
+            ),
         }
         if not self.generated_id:
             d['id'] = self.id
